@@ -63,7 +63,7 @@ def _equiv_history(prog, form1, form2, ia, ia3, vb_kind, compress, boundary, ver
 
 def ob_equiv(form1: int, form2: int, ia: int, ia3: int, vb_kind: int, check_first: bool) -> bool:
     """
-    pre: 0 <= form1 <= 5 and 0 <= form2 <= 5
+    pre: 0 <= form1 <= 6 and 0 <= form2 <= 6
     pre: 0 <= ia <= 10 and 0 <= ia3 <= 10
     pre: 0 <= vb_kind <= 2
     post: _
@@ -75,7 +75,9 @@ def ob_equiv(form1: int, form2: int, ia: int, ia3: int, vb_kind: int, check_firs
     # the third call uses the next value of the universe (a near-collision neighbour) or the same one
     H.assume(ia3 == ia or ia3 == (ia + 1) % 11)
     a1, a3 = H.select(ia, 0, 10), H.select(ia3, 0, 10)
-    fm1, fm2, vk = H.select(form1, 0, 5), H.select(form2, 0, 5), H.select(vb_kind, 0, 2)
+    nf = len(memcalls.forms_for(prog))
+    H.assume(form1 < nf and form2 < nf)
+    fm1, fm2, vk = H.select(form1, 0, nf - 1), H.select(form2, 0, nf - 1), H.select(vb_kind, 0, 2)
     cf = bool(check_first)
     with H.native():
         res = _equiv_history(prog, fm1, fm2, a1, a3, vk, H.P("compress"), H.P("boundary"), H.P("verbose", 0), cf)
